@@ -246,11 +246,12 @@ def chainSetLen (p : P) (ids : List Nat) (kind : Init) (newLen : Nat) : Outcome 
 
 /-! ## the MiniFAT and the mini stream (minialloc.rs) -/
 
-/-- `set_minifat`: the cell must lie inside the MiniFAT chain -/
+/-- `set_minifat`: the cell must lie inside the MiniFAT chain — `InvalidData` otherwise (before the
+repair of F20 this was a debug assertion: on a damaged file whose MiniFAT chain had been cut under
+the in-memory MiniFAT the next mini sector allocation panicked) -/
 def setMiniFat (p : P) (idx val : Nat) : Outcome P := do
   let chain ← chainIds p p.miniFatStart
-  if 4 * idx > chain.length * p.S then .err .invalidInput else
-  if 4 * idx + 4 > chain.length * p.S then .panic "minialloc.rs set_minifat beyond the MiniFAT chain" else
+  if 4 * idx + 4 > chain.length * p.S then .err .invalidData else
   if idx = p.miniFat.size then pure { p with miniFat := p.miniFat.push val }
   else if idx < p.miniFat.size then pure { p with miniFat := p.miniFat.setIfInBounds idx val }
   else .panic "minialloc.rs set_minifat: index beyond minifat.len()"
